@@ -23,7 +23,7 @@ TITLE = 'strict vs non-strict'
 LEVEL = 'exploration'
 SHARDS = {'quick': 16, 'thorough': 16}
 FLOOR = {'quick': 800, 'thorough': 10000}
-REQUIRED_MONITORS = {'valid-pairs-compared': 1000, 'strict-rejections-located': 800, 'deferred-raised': 300, 'deferred-dead': 300}
+REQUIRED_MONITORS = {'valid-pairs-compared': 1000, 'strict-rejections-located': 800, 'deferred-raised': 300, 'deferred-dead': 300, 'same-text-planted-twice': 100}
 RULE = ('valid layer: a case = (program, binding table), strict and non-strict renderings compared; planted layer: a case = '
         '(program, planted slot, planting form in {alone, first pipe alternative, later pipe alternative, under not:, string: '
         'part, ${} part}, binding table); non-trivial: valid iff >=1 expression, planted always; distinct by (site kind, '
@@ -39,46 +39,73 @@ class PlantedSyntaxError(Exception):
 
 
 class Bad(Expr):
-    def __init__(self, text):
-        self.text = text
+    def __init__(self, text, idx=0):
+        self.text, self.idx = text, idx
 
     def ser(self):
-        return self.text
+        return '\x02%d\x02' % self.idx        # replaced by the text after serialisation (offsets recorded)
 
     def ev(self, m):
         m.planted_reached = True
+        m.planted_idx = self.idx
         raise PlantedSyntaxError(self.text)
+
+
+def finish_source(src, texts):
+    """Replace the planting markers by their text; returns (source, {idx: offset})."""
+    out = []
+    offs = {}
+    pos = 0
+    import re as _re
+    for m in _re.finditer('\x02(\\d+)\x02', src):
+        out.append(src[pos:m.start()])
+        idx = int(m.group(1))
+        offs[idx] = sum(len(x) for x in out)
+        out.append(texts[idx])
+        pos = m.end()
+    out.append(src[pos:])
+    return ''.join(out), offs
 
 
 class WholeBad(Expr):
     """Alternate model of the known mechanism: an invalid later alternative makes the WHOLE piped
     expression a deferred error, raised as soon as the expression is reached."""
 
-    def __init__(self, inner):
+    def __init__(self, inner, idx=0):
         self.inner = inner
+        self.idx = idx          # which planted text the unit's deferred error reports (the first in the unit)
 
     def ser(self):
         return self.inner.ser()
 
     def ev(self, m):
         m.planted_reached = True
+        m.planted_idx = self.idx
         raise PlantedSyntaxError('whole')
 
 
 class Gen(c04.Gen):
-    def __init__(self, rng, maxdepth, plant_at):
+    def __init__(self, rng, maxdepth, plant_at, plant_second=-1):
         super().__init__(rng, maxdepth)
         self.count = 0
         self.plant_at = plant_at
+        self.plant_second = plant_second     # a second slot planted with the SAME invalid text
         self.planted = None      # (form, text, site)
+        self.texts = {}
 
     def rid(self, site):
         self.count += 1
+        if self.count == self.plant_second and self.planted is not None:
+            r = self.new(site)
+            self.sites[r] = 'dead-unused'
+            self.texts[1] = self.planted[1]
+            return Bad(self.planted[1], 1)
         if self.count != self.plant_at:
             return super().rid(site)
         rng = self.rng
         text = rng.choice(BADS)
-        bad = Bad(text)
+        bad = Bad(text, 0)
+        self.texts[0] = text
         r = self.new(site)
         base = site.split('-')[0]
         forms = ['alone', 'pipe-first', 'pipe-later', 'not']
@@ -125,12 +152,26 @@ def unit_alt(node):
     """Alternate-model transform for the known mechanism: the unit of deferral is the whole statement
     argument / attribute value / text node that contains the invalid text - it raises as soon as the
     unit is reached, before any other expression of the same unit runs."""
+    def first_idx(x):
+        if isinstance(x, Bad):
+            return x.idx
+        best = None
+        if isinstance(x, Expr):
+            for v in vars(x).values():
+                for y in (v if isinstance(v, (list, tuple)) else [v]):
+                    if isinstance(y, Expr):
+                        i = first_idx(y)
+                        if i is not None and (best is None or i < best):
+                            best = i
+        return best
+
     def fix(x):
-        return WholeBad(x) if isinstance(x, Expr) and holds(x) else x
+        return WholeBad(x, first_idx(x)) if isinstance(x, Expr) and holds(x) else x
 
     def fix_itext(t):
-        if any(p == 'expr' and holds(x) for p, x in t.parts):
-            return IText([('expr', WholeBad(None))])
+        idxs = [first_idx(x) for p, x in t.parts if p == 'expr' and holds(x)]
+        if idxs:
+            return IText([('expr', WholeBad(None, min(idxs)))])
         return t
 
     def walk(n):
@@ -152,8 +193,9 @@ def unit_alt(node):
 
             def flush():
                 if run:
-                    if any(isinstance(r, IText) and any(p == 'expr' and holds(x) for p, x in r.parts) for r in run):
-                        kids.append(IText([('expr', WholeBad(None))]))     # adjacent text kids are ONE text node
+                    idxs = [first_idx(x) for r in run if isinstance(r, IText) for p, x in r.parts if p == 'expr' and holds(x)]
+                    if idxs:
+                        kids.append(IText([('expr', WholeBad(None, min(idxs)))]))     # adjacent text kids are ONE text node
                     else:
                         kids.extend(run)
                     del run[:]
@@ -222,6 +264,7 @@ def real_run(src, table, extra, strict):
 def model_run(root, table, extra):
     m = tmodel.Model(table, extra=extra)
     m.planted_reached = False
+    m.planted_idx = None
     try:
         m.render(root)
         res = {'out': '<root>' + ''.join(m.out) + '</root>', 'log': m.log, 'exc': None}
@@ -230,7 +273,16 @@ def model_run(root, table, extra):
     except Exception as e:
         res = {'out': None, 'log': m.log, 'exc': type(e).__name__}
     res['loose_log'] = m.raised_in_attribute_group
+    res['planted_idx'] = m.planted_idx
     return res, m.planted_reached
+
+
+def unit_explains(root, table, shadow, got, groups, offsets, reported):
+    """Does the alternate model of the unit mechanism raise exactly where the real engine did?"""
+    alt, _ = model_run(unit_alt(root), table, c04.make_extra(shadow))
+    if alt['exc'] != 'ExpressionError' or offsets.get(alt.get('planted_idx')) != reported:
+        return False
+    return tmodel.same(got, alt, groups=groups)
 
 
 def run(ctx):
@@ -262,17 +314,22 @@ def run(ctx):
         if nslots == 0:
             continue
         # ---- (2) the same program with one slot planted
-        g = Gen(random.Random(seed), maxdepth, plant_at=rng.randint(1, nslots))
+        first = rng.randint(1, nslots)
+        second = rng.randint(first + 1, nslots) if first < nslots and rng.random() < .35 else -1
+        g = Gen(random.Random(seed), maxdepth, plant_at=first, plant_second=second)
         root = g.element(0, False)
         c01.tal_block_fix(root)
         if g.planted is None:
             continue
         form, text, site = g.planted
         groups = tmodel.attribute_groups(root)
-        src = '<root>' + tmodel.serialise(root, random.Random(perm)) + '</root>'
-        if src.count(text) != 1:
+        src, offsets = finish_source('<root>' + tmodel.serialise(root, random.Random(perm)) + '</root>', g.texts)
+        if src.count(text) != len(offsets):
             continue
-        off = src.index(text)
+        off = offsets[0]
+        two = len(offsets) == 2
+        if two:
+            ctx.mon('same-text-planted-twice')
         _, e_strict, _ = real_run(src, {}, {}, True)
         ctx.mon('strict-rejections-located')
         ctx.cover('planting-form', form)
@@ -286,7 +343,9 @@ def run(ctx):
             ctx.violation(key, 'strict compilation accepted %r (planted %r at a %s site)' % (src, text, site),
                           {'kind': 'planted', 'src': src, 'text': text})
             continue
-        if e_strict.offset != off or str(e_strict.token) != text.strip():
+        if two and e_strict.offset in offsets.values() and str(e_strict.token) == text.strip():
+            pass            # which of two invalid expressions strict compilation meets first is not specified
+        elif e_strict.offset != off or str(e_strict.token) != text.strip():
             ctx.violation('strict-error-location', 'strict: planted %r at %d in %r, reported token %r at %d' % (
                 text, off, src, str(e_strict.token), e_strict.offset), {'kind': 'planted', 'src': src, 'text': text})
         for b in range(3):
@@ -310,10 +369,21 @@ def run(ctx):
                 wl = tmodel.normalise_log(want['log'], groups)
                 ok = gl == wl[:len(gl)] and len(wl) - len(gl) <= 2
             if ok and e_r is not None:
-                if e_r.offset != e_strict.offset or str(e_r.token) != str(e_strict.token) or e_r.args[0] != e_strict.args[0]:
+                want_off = offsets.get(want.get('planted_idx'), off)
+                lo, hi = min(offsets.values()), max(offsets.values())
+                # same text node / attribute value, or two attributes of one start tag (their order is unspecified)
+                same_unit = two and '<' not in src[lo:hi] and ('"' not in src[lo:hi] or '>' not in src[lo:hi])
+                if same_unit and e_r.offset in offsets.values():
+                    pass     # two invalid texts inside ONE text node / attribute value: covered by the unit mechanism
+                elif e_r.offset != want_off and two and unit_explains(root, table, shadow, got, groups, offsets, e_r.offset):
+                    ctx.violation('deferred-error-unit-is-the-whole-argument-or-text-node',
+                                  'template %r: deferred error reported at %d, the reached invalid expression stands at %d'
+                                  % (src, e_r.offset, want_off), {'kind': 'planted', 'src': src, 'text': text})
+                elif e_r.offset != want_off or str(e_r.token) != str(e_strict.token) or e_r.args[0] != e_strict.args[0]:
                     ctx.violation('deferred-error-differs-from-strict-error',
-                                  'template %r: strict error (%r, %r, %d), deferred error (%r, %r, %d)' % (
-                                      src, e_strict.args[0], str(e_strict.token), e_strict.offset, e_r.args[0],
+                                  'template %r: the reached invalid expression stands at offset %d (strict error: %r, %r); '
+                                  'deferred error (%r, %r, offset %d)' % (
+                                      src, want_off, e_strict.args[0], str(e_strict.token), e_r.args[0],
                                       str(e_r.token), e_r.offset), {'kind': 'planted', 'src': src, 'text': text})
             if not ok:
                 key = 'raised-iff-reached-violated'
